@@ -28,6 +28,8 @@ def c_chunks(chunks):
 def c_op(op):
     if op[0] == "cmd":
         return "(OCmd %d %s)" % (op[1], c_chunks(op[2]))
+    if op[0] == "send":
+        return "(OSend %s %s)" % ("None" if op[1] is None else "(Some %d)" % op[1], c_chunks(op[2]))
     if op[0] == "lock":
         return "OLock"
     if op[0] == "unlock":
@@ -81,7 +83,7 @@ def msgs_of(chunks):
 
 
 def filter_classes(script):
-    return {op[1] for op in script if op[0] == "cmd"}
+    return {op[1] for op in script if op[0] == "cmd" or (op[0] == "send" and op[1] is not None)}
 
 
 def is_notif(fr, fcs):
@@ -194,9 +196,12 @@ def h1h2(case):
             r = [f for f in msgs_of(op[2]) if f[0] in fcs]
             if len(r) != 1 or r[0][0] != op[1]:        # ... and it is the one this command waits for
                 return False
+        elif op[0] == "send":
+            if [f for f in msgs_of(op[2]) if f[0] in fcs]:
+                return False
     return not [f for f in msgs_of(case.get("spont", [])) if f[0] in fcs]
 
 
 def expected_response(op, fcs):
-    r = [f for f in msgs_of(op[2]) if f[0] in fcs]
-    return r[0] if len(r) == 1 and r[0][0] == op[1] else None
+    r = [f for f in msgs_of(op[2]) if f[0] == op[1]]
+    return r[0] if len(r) == 1 else None
